@@ -17,7 +17,7 @@ MUTS = {
     "M4-join-exact-fit-rejected": ("muggle/c/os/path.c", [("if ((unsigned int)(len_path1 + len_path2) > max_len)", "if ((unsigned int)(len_path1 + len_path2) >= max_len)")]),
     "M5-hex-accepts-g": ("muggle/c/encoding/hex.c", [("if ('a' <= c && c <= 'f')", "if ('a' <= c && c <= 'g')")]),
     "M6-tou-rejects-uint-max": ("muggle/c/base/str.c", [("if (errno == ERANGE || ret > UINT_MAX)", "if (errno == ERANGE || ret >= UINT_MAX)")]),
-    "M7-swap32-wrong-shift": ("muggle/c/os/endian.h", [("(((value) & 0x00FF0000) >>  8)", "(((value) & 0x00FF0000) >> 16)")]),
+    "M7-swap32-wrong-shift": ("muggle/c/os/endian.h", [("((((uint32_t)(value)) & 0x00FF0000) >>  8)", "((((uint32_t)(value)) & 0x00FF0000) >> 16)")]),
     "M8-find-boundary": ("muggle/c/base/str.c", [("if (pos == NULL || pos + sub_len > str + end)", "if (pos == NULL || pos + sub_len >= str + end)")]),
     "M9-dirname-size-off-by-one": ("muggle/c/os/path.c", [("\tif (pos >= (int)size)", "\tif (pos > (int)size)")]),
     "M10-unsigned-minus-zero": ("muggle/c/base/str.c", [("\tif (ret != 0 && str[muggle_str_lstrip_idx(str)] == '-')", "\tif (str[muggle_str_lstrip_idx(str)] == '-')")]),
@@ -25,6 +25,15 @@ MUTS = {
     "M12-rstrip-off-by-one": ("muggle/c/base/str.c", [("\t\tif (--idx < 0)\n", "\t\tif (--idx <= 0)\n")]),
     "M13-isabs-root-alone": ("muggle/c/os/path.c", [("\tif (len > 1 && path[0] == '/')", "\tif (len > 0 && path[0] == '/')")]),
     "M14-normpath-pop-boundary": ("muggle/c/os/path.c", [("\t\t\t\t\tpos -= 2;\n\t\t\t\t\tif (pos < 0)", "\t\t\t\t\tpos -= 2;\n\t\t\t\t\tif (pos <= 0)")]),
+    # follow-up of the independent review (edits bin/check did not report before; fixes/C20-15..17 applied)
+    "M15-abspath-full-path-512": ("muggle/c/os/path.c", [("char full_path[MUGGLE_MAX_PATH];", "char full_path[512];")]),
+    "M16-swap32-last-term-unmasked": ("muggle/c/os/endian.h", [("((((uint32_t)(value)) & 0xFF000000) >> 24))", "((value) >> 24))")]),
+    "M17-tod-underflow-accepted": ("muggle/c/base/str.c", [("    *pval = strtod(str, &endptr);", "    *pval = strtod(str, &endptr);\n\tif (errno == ERANGE && !isinf(*pval)) errno = 0;")]),
+    "M18-toi-range-chain-else-if": ("muggle/c/base/str.c", [("\t}\n\n\tif ((ret == LONG_MAX || ret == LONG_MIN) && errno == ERANGE)\n\t{\n\t\t// out of range\n\t\treturn 0;\n\t}\n\telse if (ret > INT_MAX",
+                                                            "\t}\n\telse if ((ret == LONG_MAX || ret == LONG_MIN) && errno == ERANGE)\n\t{\n\t\t// out of range\n\t\treturn 0;\n\t}\n\telse if (ret > INT_MAX")]),
+    "M19-lstrip-bound": ("muggle/c/base/str.c", [("\t\tif (++idx >= str_len)\n", "\t\tif (++idx > str_len)\n")]),
+    "M20-startswith-loop-bound": ("muggle/c/base/str.c", [("for (size_t i = 0; i < prefix_len; ++i)", "for (size_t i = 0; i + 1 < prefix_len; ++i)")]),
+    "M21-endswith-index": ("muggle/c/base/str.c", [("str[str_len - 1 - i]", "str[str_len - i]")]),
     # behaviour preserving rewrites: must stay quiet
     "P1-rewrites": None,
 }
